@@ -108,4 +108,40 @@ theorem loopL_errReturn {σ τ} (M : PDM σ) (data : Bytes) (h : Handler τ) (fu
   rw [loopL_succ M data h fuel cs st r b hb, hs]
   simp [execActsL, execSimple, SAct.isHandler]
 
+/-- from `(s, st)` with registers `r` the run gets to `(s', st')` in front of `rest`, all other registers unchanged -/
+def Reach {σ τ} (M : PDM σ) (data : Bytes) (h : Handler τ) (fuel : Nat) (s : σ) (st : List σ) (r : Regs τ)
+    (rest : List UInt8) (s' : σ) (st' : List σ) : Prop :=
+  ∃ (fuel' p' : Nat), At data p' rest ∧ rest.length + 1 ≤ fuel' ∧
+    contL M data h fuel s st r = contL M data h fuel' s' st' { r with p := (p' : Int) }
+
+theorem setp_self {τ} (r : Regs τ) (q : Int) (h : r.p = q) : { r with p := q } = r := by
+  cases r; simp_all
+
+theorem Reach.refl {σ τ} (M : PDM σ) (data : Bytes) (h : Handler τ) (fuel : Nat) (s : σ) (st : List σ) (r : Regs τ)
+    (p : Nat) (l : List UInt8) (hat : At data p l) (hp : r.p = p) (hf : l.length + 1 ≤ fuel) :
+    Reach M data h fuel s st r l s st :=
+  ⟨fuel, p, hat, hf, by rw [setp_self r _ hp]⟩
+
+/-- `Reach` composes -/
+theorem Reach.trans {σ τ} {M : PDM σ} {data : Bytes} {h : Handler τ} {fuel : Nat} {s : σ} {st : List σ} {r : Regs τ}
+    {mid : List UInt8} {s1 : σ} {st1 : List σ} {rest : List UInt8} {s2 : σ} {st2 : List σ}
+    (h1 : Reach M data h fuel s st r mid s1 st1)
+    (h2 : ∀ (fuel' p' : Nat), At data p' mid → mid.length + 1 ≤ fuel' →
+      Reach M data h fuel' s1 st1 { r with p := (p' : Int) } rest s2 st2) :
+    Reach M data h fuel s st r rest s2 st2 := by
+  obtain ⟨f1, p1, hat1, hf1, e1⟩ := h1
+  obtain ⟨f2, p2, hat2, hf2, e2⟩ := h2 f1 p1 hat1 hf1
+  exact ⟨f2, p2, hat2, hf2, by rw [e1, e2]⟩
+
+/-- a view of a suffix -/
+theorem at_of_suffix {data : Bytes} {p : Nat} {l r : List UInt8} (h : At data p l) (hs : r <:+ l) :
+    At data (data.size - r.length) r := by
+  obtain ⟨t, rfl⟩ := hs
+  have hlen := h.length
+  have hle := h.le
+  simp only [List.length_append] at hlen
+  refine ⟨by omega, ?_⟩
+  have : data.size - r.length = p + t.length := by omega
+  rw [this, ← List.drop_drop, h.eq, List.drop_left]
+
 end RJson.Ragel
